@@ -10,8 +10,8 @@
                                               -> req_of / sys_step (the request a proxy sends, and what it
                                                  remembers / returns given the reply)
    and from /repo/qmi/core/context.py:
-     QMI_Context.make_unique_token            -> gen_token (property-conforming: carries an identity of the
-                                                 context INSTANCE), gen_token_impl (faithful: name + counter only)
+     QMI_Context.make_unique_token            -> gen_token (name + per-instance nonce + counter; the nonce is
+                                                 an input), gen_token_impl (tree before the repair: name + counter)
 
    A token is QMI_LockTokenDescriptor(context_id, token): a pair (context name, token string).  The code
    only ever compares tokens with == / is None, so names and custom strings are abstract numbers here. *)
@@ -195,18 +195,24 @@ Fixpoint executed (s : sys) (ops : list op) : list (option token * N) :=
 (* ---------------------------------------------------------------------------------------------- *)
 (* Token source and client programs (automatic tokens)                                            *)
 (* ---------------------------------------------------------------------------------------------- *)
-(* a context INSTANCE: [cid] identifies the instance (distinct QMI_Context objects, in the same or in
-   different processes, have distinct cid — in the repaired code a random per-instance nonce), [cname] is
-   its context name, which client contexts may share. *)
-Record ctxinst := mkCtx { cid : N; cname : N }.
+(* a context INSTANCE (one QMI_Context object, in this or in another process):
+     [iid]   which object it is — every instance has its own _unique_counters, so the counter is keyed by iid;
+             iid is not visible in any token;
+     [nonce] the per-instance value the constructor draws (QMI_Context._token_nonce) — an INPUT of the token
+             generator: whatever the constructor draws it from is outside the model;
+     [cname] the context name, which client contexts may share.
+   Tokens of two same-named instances can only differ through the nonce (their counters both start at 1), so
+   every distinctness theorem carries the hypothesis "same-named distinct instances have distinct nonces"
+   ([nonces_ok] in Proofs.v); the tie checks that hypothesis against the real constructor. *)
+Record ctxinst := mkCtx { iid : N; nonce : N; cname : N }.
 
-Definition gen_token (c : ctxinst) (n : N) : token := (cname c, TAuto (cid c) n).
-(* faithful transcription of the current tree: QMI_LockTokenDescriptor(self.name, "$lock_" + str(nr)) *)
+Definition gen_token (c : ctxinst) (n : N) : token := (cname c, TAuto (nonce c) n).
+(* faithful transcription of the tree BEFORE the repair: QMI_LockTokenDescriptor(self.name, "$lock_" + str(nr)) *)
 Definition gen_token_impl (c : ctxinst) (n : N) : token := (cname c, TAuto 0 n).
 
 Definition updN (f : N -> N) (k v : N) : N -> N := fun j => if N.eqb j k then v else f j.
 
-Record pst := mkP { psys : sys; ctr : N -> N }.   (* ctr (cid c) = _unique_counters["$lock_"] of instance c *)
+Record pst := mkP { psys : sys; ctr : N -> N }.   (* ctr (iid c) = _unique_counters["$lock_"] of instance c *)
 Definition init_pst : pst := mkP init_sys (fun _ => 0%N).
 
 Inductive pop :=
@@ -221,9 +227,9 @@ Definition pstep (gen : ctxinst -> N -> token) (cfg : nat -> ctxinst) (s : pst) 
   match o with
   | PLock p None =>
       let c := cfg p in
-      let n := N.succ (ctr s (cid c)) in
+      let n := N.succ (ctr s (iid c)) in
       let '(s1, x) := sys_step (psys s) (OLock p (gen c n)) in
-      (mkP s1 (updN (ctr s) (cid c) n), x)
+      (mkP s1 (updN (ctr s) (iid c) n), x)
   | PLock p (Some u) =>
       let '(s1, x) := sys_step (psys s) (OLock p (cname (cfg p), TCustom u)) in (mkP s1 (ctr s), x)
   | PUnlock p None => let '(s1, x) := sys_step (psys s) (OUnlock p None) in (mkP s1 (ctr s), x)
@@ -245,4 +251,4 @@ Fixpoint prun (gen : ctxinst -> N -> token) (cfg : nat -> ctxinst) (s : pst) (op
 
 Definition is_auto (t : token) : bool := match snd t with TAuto _ _ => true | TCustom _ => false end.
 
-Definition cfg_of (l : list ctxinst) (p : nat) : ctxinst := nth p l (mkCtx 0 0).
+Definition cfg_of (l : list ctxinst) (p : nat) : ctxinst := nth p l (mkCtx 0 0 0).
